@@ -8,18 +8,20 @@ is written by hand here is only (a) the leaf alphabets, (b) which parallel list 
 to be right for soundness: each tree is rendered with `ast.unparse` and kept only if CPython's
 own parser accepts the text; CPython's parse of that text is the expected tree.
 
-Cost model (the bound).  The root statement/expression constructor is free.  Every slot has a
-default child (cost 0): `expr` -> a fresh one-letter Name, `stmt` -> `pass` (later slots: a bare
-name statement), `pattern` -> a literal value pattern, records (arg, keyword, alias, withitem,
-comprehension, match_case, handler ...) -> their minimal shape.  Departing from the default costs:
-  2  for a different constructor in a sum-type slot (a "constructor deviation"; all operator /
-     constant / conversion variants of that constructor are alternatives of equal cost),
-  1  for a shape or leaf edit: an optional field present (or a default-present one absent), each
-     list element beyond (or below) the field's minimal length, a non-default identifier, import
-     level, `async` comprehension flag.
-`enumerate_programs(budget, maxdev, reduced)` yields every module whose total cost is <= budget
-with at most `maxdev` constructor deviations.  With `reduced` only one or two representatives of
-each operator / constant family are used (needed to keep two-deviation trees polynomial)."""
+Bound (two counters per tree; the root statement / expression constructor is free).  Every slot
+has a default child: `expr` -> a fresh one-letter Name (siblings get different letters, so swapped
+operands are visible), `stmt` -> `pass` (later slots: a bare name statement), `pattern` -> a literal
+value pattern, records (arg, keyword, alias, withitem, comprehension, match_case, handler ...) -> their
+minimal shape.  Departing from the default counts as
+  a constructor deviation: a different constructor in a sum-type slot (all operator / constant /
+      conversion variants of that constructor are alternatives of equal cost), or
+  an edit: an optional field present (or a default-present one absent), each list element beyond
+      (or below) the field's minimal length, a non-default identifier / dotted name / import level /
+      `async` comprehension flag, another type-parameter kind or f-string part.
+A budget is a tuple `bud`: a tree with k constructor deviations may carry at most bud[k] edits
+(k < len(bud)).  `Enumerator.root_programs(root, bud, reduced)` yields every module within the budget
+grown from one root form; with `reduced` only one or two representatives of each operator / constant
+family are used (keeps two-deviation trees polynomial).  List fields are at most `maxlen` long."""
 
 from __future__ import annotations
 
